@@ -31,10 +31,17 @@ structure Case where
   series : List (String × List Bytes)
   items : List Item
 
-def parseItem : List String → Option Item
-  | ["d", sid, v, r] => do pure (.dp sid (← floatOfTok v) (← floatOfTok r))
-  | ["m"] => some .m
-  | ["f"] => some .f
+/-- `D sid n base step`: n datapoints `base + i*step` (small integers: exact in floating point), rate 1 — a compact way
+to write the large timers that internal scratch buffers are sized for -/
+def parseItem : List String → Option (List Item)
+  | ["d", sid, v, r] => do pure [.dp sid (← floatOfTok v) (← floatOfTok r)]
+  | ["D", sid, n, base, step] => do
+    let n ← n.toNat?
+    let b ← base.toNat?
+    let st ← step.toNat?
+    pure ((List.range n).map (fun i => .dp sid (b + i * st).toFloat 1.0))
+  | ["m"] => some [.m]
+  | ["f"] => some [.f]
   | _ => none
 
 def parseBackend (b v : String) : Option Backend :=
@@ -65,7 +72,7 @@ def parseCase (line : String) : Option Case := do
     let backend ← parseBackend b v
     let series ← parseSeries (← kv h "S")
     let its ← (items.filter (fun i => !i.isEmpty)).mapM parseItem
-    pure { head := head, backend := backend, bname := b, series := series, items := its }
+    pure { head := head, backend := backend, bname := b, series := series, items := its.flatten }
   | [] => none
 
 /-- per series the datapoints of the current batch, newest first -/
